@@ -60,11 +60,35 @@ def judge(ctx, rep, trace_path, cases_path, label):
     return res
 
 
+def _history_scope(field, exp, got, info):
+    return not info["after_end"]
+
+
+# the contracts hold at EVERY evaluation: the same expressions over the numeric built-ins and the
+# conversions (also of literals: number(2) + 1) are evaluated again and again in one dialogue while
+# the variables change - decided on the runner specification (shared pipeline of core_common.py)
+HISTORY = dict(
+    sig="builtins-history", scope=_history_scope, merge=True,
+    sc=dict(family="mathy", n=(100, 1000), mc=dict(max_calls=12, after_end=0), mc_thorough=dict(max_calls=14),
+            invariants=["FlowRefinesSem"]),
+    cs=[dict(family="mathy", n=(40, 400), paths=(3, 5), calls=40,
+             label="YarnTrace: numeric built-ins and conversions evaluated repeatedly")],
+    nontrivial=lambda c: True,
+    rule="programs of the mathy family (the start node runs three times with changed variables; most number expressions go through "
+         "floor / ceil / round / inc / dec / integer / decimal / number, conversions of literals included, as left and right operands): "
+         "all choice paths enumerated by TLC and replayed, random walks trace-validated; exact rationals with |n| <= 2^15 and a "
+         "denominator <= 2^8",
+)
+
+
 def run(ctx):
     thorough = ctx.tier == "thorough"
     ctx.build()
     rep = Reporter(ctx)
     if ctx.replay:
+        import core_common as cc
+        if json.load(open(ctx.replay))["payload"].get("kind") in ("replay", "trace"):
+            return cc.replay_core(ctx, HISTORY)
         case = json.load(open(ctx.replay))["payload"]["case"]
         vlib.write_ndjson(ctx.path("one.ndjson"), [case])
         ctx.harness(["builtins", "record", "--in", ctx.path("one.ndjson"), "--out", ctx.path("onetrace.ndjson"), "--cases", ctx.path("onecases.ndjson")])
@@ -133,6 +157,8 @@ def run(ctx):
         violations_by_class=dict(rep.per), suppressed_duplicates=rep.suppressed,
         nonvacuity=nonvac, binding_selftest=selftest, samples=samples,
     )
+    import core_common as cc
+    cc.run_core_check(ctx, HISTORY)
     ctx.assumptions += [
         "numeric contracts are decided for |x| < 2^52 with at most 28 fractional bits (TLC integers are 32-bit; numbers cross as 26-bit limbs); "
         "doubles with more fractional bits (|x| < 2^24 with a full mantissa) are not covered by floor/ceil/inc/dec/integer/decimal/round",
